@@ -4,8 +4,11 @@ package c06
 // preemption bound x all environment scripts up to a deviation bound on the real transfer queue.
 
 import (
+	"bufio"
+	"encoding/json"
 	"fmt"
 	"os"
+	"os/exec"
 	"path/filepath"
 	"strconv"
 	"strings"
@@ -199,6 +202,13 @@ func verifMain(prop string) {
 		bounds = append(bounds, map[string]interface{}{"scenario": sp.name, "preemption_bound": sp.p, "deviation_bound": sp.d, "all_sync_ops_are_points": sp.all,
 			"adds": sp.adds, "batch_sizes": sp.batch, "workers": sp.workers, "max_retries": sp.retries, "watchers": sp.watch, "upload": sp.uploads})
 	}
+	if prop == "C06" && os.Getenv("VERIF_RACE_BIN") != "" && (only == "" || only == "race-pass") {
+		t0 := time.Now()
+		part := racePass(c)
+		fmt.Printf("  scenario %-22s free-running -race pass: runs=%d distinct races=%d %.1fs\n", "race-pass", part.Stats.Executions, len(part.Stats.Violations), time.Since(t0).Seconds())
+		parts = append(parts, part)
+		bounds = append(bounds, map[string]interface{}{"scenario": "race-pass", "what": "same harness bodies, package tq NOT rewritten, built with -race, free-running goroutines; every configuration x nominal + every single environment deviation, 2 runs each; complements the schedule exploration for unsynchronised plain memory accesses (not exhaustive over schedules: the Go scheduler decides)"})
+	}
 	c.Bounds["scenarios"] = bounds
 	code := c.Finish(parts, nil)
 	pool.Close()
@@ -206,3 +216,106 @@ func verifMain(prop string) {
 }
 
 func TestVerifC06(t *testing.T) { verifMain("C06") }
+
+// racePass runs the separately built free-running -race binary and turns its report into a vx.Part.
+// A data race between two functions of git-lfs is reported under the fingerprint C06:data-race:<f1>+<f2>.
+func racePass(c *vx.Check) vx.Part {
+	type rec struct {
+		ID         string   `json:"id"`
+		Config     string   `json:"config"`
+		Script     string   `json:"script"`
+		Races      []string `json:"races"`
+		RaceText   []string `json:"race_text"`
+		Harness    int      `json:"harness_races"`
+		Violations []string `json:"violations"`
+		Outcome    string   `json:"outcome"`
+		Err        string   `json:"err"`
+	}
+	runBin := func(onlyID string, reps int) []rec {
+		outp := filepath.Join(os.Getenv("VERIF_SCRATCH"), fmt.Sprintf("race-out-%s-%d.jsonl", onlyID, time.Now().UnixNano()))
+		var all []rec
+		for r := 0; r < reps; r++ {
+			cmd := exec.Command(os.Getenv("VERIF_RACE_BIN"), "-test.run", "^TestC06Race$")
+			cmd.Env = append(os.Environ(), "VERIF_RACE_OUT="+outp, "VERIF_RACE_ONLY="+onlyID)
+			cmd.Dir = os.Getenv("VERIF_SCRATCH")
+			cmd.CombinedOutput()
+			f, err := os.Open(outp)
+			if err != nil {
+				continue
+			}
+			sc := bufio.NewScanner(f)
+			sc.Buffer(make([]byte, 1<<20), 1<<24)
+			for sc.Scan() {
+				var x rec
+				if json.Unmarshal(sc.Bytes(), &x) == nil {
+					all = append(all, x)
+				}
+			}
+			f.Close()
+			os.Remove(outp)
+			if onlyID == "" {
+				break
+			}
+		}
+		return all
+	}
+	toResult := func(x rec) vx.Result {
+		r := vx.Result{Outcome: "race-pass:" + x.Outcome, NonTrivial: []string{x.Config + " | " + x.Script}, Counters: map[string]int64{"race_pass.harness_only_races": int64(x.Harness)}}
+		if x.Err != "" {
+			r.Inconcl = "race child failed: " + x.Err
+		}
+		seen := map[string]bool{}
+		for i, fp := range x.Races {
+			if seen[fp] {
+				continue
+			}
+			seen[fp] = true
+			txt := ""
+			if i < len(x.RaceText) {
+				txt = x.RaceText[i]
+			}
+			r.Violations = append(r.Violations, vx.Violation{Fingerprint: fp, Msg: "the race detector reports a data race in git-lfs code (free-running -race pass)\nconfig: " + x.Config + " script: " + x.Script + "\n" + txt, Detail: map[string]interface{}{"job": x.ID}})
+		}
+		for _, v := range x.Violations {
+			parts := strings.SplitN(v, "|", 2)
+			if strings.HasPrefix(parts[0], "C06:") && !strings.Contains(parts[0], "blocked") {
+				r.Violations = append(r.Violations, vx.Violation{Fingerprint: parts[0] + ":free-running", Msg: parts[1] + "\nconfig: " + x.Config + " script: " + x.Script, Detail: map[string]interface{}{"job": x.ID}})
+			}
+		}
+		r.Sample = map[string]interface{}{"race_pass_job": x.ID, "config": x.Config, "script": x.Script, "races": x.Races, "outcome": x.Outcome}
+		return r
+	}
+	st := vx.NewStats()
+	ids := map[string]int{}
+	var order []string
+	for _, x := range runBin("", 1) {
+		if _, ok := ids[x.ID]; !ok {
+			ids[x.ID] = len(order)
+			order = append(order, x.ID)
+		}
+		r := toResult(x)
+		pt := []vx.Point{{K: vx.Input, N: 1 << 20, C: ids[x.ID]}}
+		r.Points = pt
+		st.Absorb(pt, &r, 0)
+	}
+	st.Exhaustive = true
+	// confirmation: race detection is probabilistic, so a replay repeats the job up to 12 times
+	exec := func(p []vx.Point) vx.Result {
+		if len(p) != 1 || p[0].C >= len(order) {
+			return vx.Result{Points: p, ToolErr: "bad race-pass replay prefix"}
+		}
+		agg := vx.Result{Points: p}
+		seen := map[string]bool{}
+		for _, x := range runBin(order[p[0].C], 6) {
+			r := toResult(x)
+			for _, v := range r.Violations {
+				if !seen[v.Fingerprint] {
+					seen[v.Fingerprint] = true
+					agg.Violations = append(agg.Violations, v)
+				}
+			}
+		}
+		return agg
+	}
+	return vx.Part{Scenario: "race-pass", Stats: st, Exec: exec}
+}
